@@ -312,7 +312,7 @@ def check(ctx, report):
             if tmpl is None:
                 continue
             report.count('C14.R5')
-            if not literal_template(tmpl, f.node):
+            if not literal_template(tmpl, f.node) and not class_constant_template(model, c, tmpl):
                 report.add('C14.R5', '%s@template[%s]' % (f.construct, ast.unparse(tmpl)[:40]),
                            'the format template %s is built at run time: a name or value containing braces (or %%) is interpreted as a replacement '
                            'field and makes the serialisation fail' % ast.unparse(tmpl)[:60])
@@ -440,6 +440,20 @@ def check(ctx, report):
     plain_classes_render(ctx, report)
     report.floor('C14.R1', 20, 'iteration obligations')
     report.floor('C14.R4', 15, '_asdict overrides')
+
+
+def class_constant_template(model, c, t):
+    """``self.NAME`` / ``cls.NAME`` / ``Class.NAME`` where every binding of NAME in the class bodies of the family of ``c`` (its
+    bases, the class, its subclasses) is a string literal: the template is a constant of the source, chosen by the class"""
+    if not (isinstance(t, ast.Attribute) and isinstance(t.value, ast.Name) and c is not None):
+        return False
+    if t.value.id not in ('self', 'cls') and model.try_cls(t.value.id) is None:
+        return False
+    family = [k for k in c.mro if isinstance(k, ClassInfo)] + [k for k in model.repo_classes() if k.is_subclass_of(c.name)]
+    binds = [k.class_vars[t.attr] for k in family if t.attr in k.class_vars]
+    # None stands for "no template" (formatting None is an AttributeError, not an interpretation of data)
+    return any(isinstance(b, ast.Constant) and isinstance(b.value, str) for b in binds) and \
+        all(isinstance(b, ast.Constant) and (isinstance(b.value, str) or b.value is None) for b in binds)
 
 
 def literal_template(t, fnode, depth=0):
